@@ -14,10 +14,9 @@ def skipRes (s : Sess) (t : TaskSpec) : Raised :=
   else if s.failMarks.contains t.id then .ancestorFailed
   else .none
 
-/-- `persist.pytask_execute_task_setup`  (F20-FLIP: with the repair of finding F20 this also looks at the
-`would_be_executed` mark) -/
-def persistRes (P : Project) (g : G) (w : World) (t : TaskSpec) : Raised :=
-  if t.persist then
+/-- `persist.pytask_execute_task_setup` (after the repair of finding F20: not for a task carrying `would_be_executed`) -/
+def persistRes (P : Project) (g : G) (wbe : List Nat) (w : World) (t : TaskSpec) : Raised :=
+  if t.persist && !wbe.contains t.id then
     if ((neighbours g t.id).map (stateOf P w)).all (·.isSome) then
       if ((neighbours g t.id).zip ((neighbours g t.id).map (stateOf P w))).any (fun (v, st) => hasChanged w t.id v st)
       then .persisted else .none
@@ -35,25 +34,25 @@ def execRes (P : Project) (g : G) (force : Bool) (wbe : List Nat) (w : World) (t
 theorem setupChain_eq (P : Project) (g : G) (cfg : Cfg) (s : Sess) (t : TaskSpec) :
     setupChain P g cfg s t Generated.setupOrder =
       match skipRes s t with
-      | .none => (match persistRes P g s.w t with
+      | .none => (match persistRes P g s.wbeMarks s.w t with
                   | .none => execRes P g cfg.force s.wbeMarks s.w t
                   | r => r)
       | r => r := by
   have h0 : setupImpl P g cfg s t "provisional" = .none := by simp [setupImpl]
   have h1 : setupImpl P g cfg s t "skipping" = skipRes s t := by simp [setupImpl, skipRes]
-  have h2 : setupImpl P g cfg s t "persist" = persistRes P g s.w t := by simp [setupImpl, persistRes]
+  have h2 : setupImpl P g cfg s t "persist" = persistRes P g s.wbeMarks s.w t := by simp [setupImpl, persistRes]
   have h3 : setupImpl P g cfg s t "execute" = execRes P g cfg.force s.wbeMarks s.w t := by
     simp [setupImpl, execRes] <;> rfl
   simp only [Generated.setupOrder, setupChain, h0, h1, h2, h3]
-  cases skipRes s t <;> simp only [] <;> cases persistRes P g s.w t <;> simp only [] <;>
+  cases skipRes s t <;> simp only [] <;> cases persistRes P g s.wbeMarks s.w t <;> simp only [] <;>
     cases execRes P g cfg.force s.wbeMarks s.w t <;> rfl
 
 theorem skipRes_range (s : Sess) (t : TaskSpec) :
     skipRes s t = .skipped ∨ skipRes s t = .ancestorFailed ∨ skipRes s t = .none := by
   unfold skipRes; split; exact Or.inl rfl; split; exact Or.inl rfl; split; exact Or.inr (Or.inl rfl); exact Or.inr (Or.inr rfl)
 
-theorem persistRes_range (P : Project) (g : G) (w : World) (t : TaskSpec) :
-    persistRes P g w t = .persisted ∨ persistRes P g w t = .none := by
+theorem persistRes_range (P : Project) (g : G) (wbe : List Nat) (w : World) (t : TaskSpec) :
+    persistRes P g wbe w t = .persisted ∨ persistRes P g wbe w t = .none := by
   unfold persistRes; split
   · split
     · split; exact Or.inl rfl; exact Or.inr rfl
@@ -73,8 +72,8 @@ theorem execRes_range (P : Project) (g : G) (force : Bool) (wbe : List Nat) (w :
 /-- The result of the chain, read off the three implementations. -/
 theorem setupChain_cases (P : Project) (g : G) (cfg : Cfg) (s : Sess) (t : TaskSpec) :
     (skipRes s t ≠ .none ∧ setupChain P g cfg s t Generated.setupOrder = skipRes s t) ∨
-    (skipRes s t = .none ∧ persistRes P g s.w t = .persisted ∧ setupChain P g cfg s t Generated.setupOrder = .persisted) ∨
-    (skipRes s t = .none ∧ persistRes P g s.w t = .none ∧
+    (skipRes s t = .none ∧ persistRes P g s.wbeMarks s.w t = .persisted ∧ setupChain P g cfg s t Generated.setupOrder = .persisted) ∨
+    (skipRes s t = .none ∧ persistRes P g s.wbeMarks s.w t = .none ∧
       setupChain P g cfg s t Generated.setupOrder = execRes P g cfg.force s.wbeMarks s.w t) := by
   rw [setupChain_eq]
   rcases skipRes_range s t with h | h | h
@@ -82,7 +81,7 @@ theorem setupChain_cases (P : Project) (g : G) (cfg : Cfg) (s : Sess) (t : TaskS
   · left; rw [h]; exact ⟨(by intro h'; cases h'), rfl⟩
   · right
     rw [h]
-    rcases persistRes_range P g s.w t with h2 | h2
+    rcases persistRes_range P g s.wbeMarks s.w t with h2 | h2
     · left; rw [h2]; exact ⟨rfl, rfl, rfl⟩
     · right; rw [h2]; exact ⟨rfl, rfl, rfl⟩
 
